@@ -262,7 +262,9 @@ fn level1(report: &mut Report, tier: Tier) {
     report.cov_add("traces_validated_against_impl", total_exec);
     let outcomes = outcomes.into_inner().unwrap();
     report.cov("l1_distinct_outcomes", outcomes.len() as u64);
-    report.sample(json!({"level": "L1", "threads": 2, "calls": 2, "used": [0, 2], "example_outcome": outcomes.iter().next()}));
+    // actual explored cases: the id multisets handed out (each is one equivalence class of schedules)
+    let shown: Vec<&Vec<u32>> = outcomes.iter().filter(|o| o.len() >= 4).take(3).collect();
+    report.sample(json!({"level": "L1", "ids_handed_out_in_explored_executions (sorted, per execution)": shown}));
 }
 
 // ------------------------------------------------------------------------------------------
@@ -453,6 +455,10 @@ fn run_l2(scratch: &Scratch, start: &Kv, dim: usize, metric: Metric, opts: &Buil
     Ok((points, kv, res))
 }
 
+thread_local! {
+    static LAST_SCHEDULE: std::cell::RefCell<Vec<usize>> = const { std::cell::RefCell::new(Vec::new()) };
+}
+
 /// Canonical form of a forest, independent of node ids.
 fn canonical_forest(ix: &DIndex) -> String {
     fn walk(ix: &DIndex, c: Child, out: &mut String) {
@@ -548,6 +554,7 @@ fn level2(report: &mut Report, tier: Tier) {
         let r = dfs(
             |prefix| {
                 let (points, kv, res) = run_l2(&scratch, &start, dim, metric, &opts, trees, prefix)?;
+                LAST_SCHEDULE.with(|l| *l.borrow_mut() = points.iter().map(|p| p.chosen).collect());
                 if failure.is_none() {
                     let schedule: Vec<usize> = points.iter().map(|p| p.chosen).collect();
                     let verdict: Result<(), (String, String)> = (|| {
@@ -596,7 +603,7 @@ fn level2(report: &mut Report, tier: Tier) {
     report.cov_add("transitions", total_exec);
     report.cov_add("traces_validated_against_impl", total_exec);
     report.cov("l2_interleavings", total_exec);
-    report.sample(json!({"level": "L2", "scenario": "2 trees, 4 items built with split_after=1, 1 item added, rebuild in a 2-thread pool", "schedule": "sequence of task choices at every next() call"}));
+    report.sample(json!({"level": "L2", "scenario": "2-3 trees built with split_after=1 on one thread, 1-3 items added, rebuild in a pool with one thread per tree", "schedule": LAST_SCHEDULE.with(|l| l.borrow().clone()), "meaning": "index of the task (ascending root id among the blocked ones) released at each next() call / task boundary"}));
 }
 
 /// Supplementary, sampled (not part of the verdict's exhaustive claim): uncontrolled builds in
